@@ -29,7 +29,11 @@ def run(chk, tier):
     prog = program(crates=('core',))
     chk.explanation = __doc__
     chk.assumptions += ['tracing macros have no effect on program state']
-    eng0 = Engine(prog, inline_depth=0, loop_visits=2)
+    # bool-valued private helpers of Strategy are named parts of the guard expression: they are evaluated in the caller's trace
+    SADT = prog.find(r'Strategy::send_request$').get('impl_adt')
+    guard_helpers = {p_ for p_, f_ in prog.fns.items() if f_.get('impl_adt') == SADT and f_['kind'] == 'AssocFn' and f_['locals'][0]['ty'] == 'bool' and
+                     not f_.get('impl_trait')}
+    eng0 = Engine(prog, inline_depth=1, loop_visits=2, inline_filter=lambda c_: c_ in guard_helpers)
     eng = Engine(prog, inline_depth=3)
     f = prog.find(r'Strategy::send_request$')
     chk.fn_seen(f['path'])
@@ -176,7 +180,7 @@ def run(chk, tier):
     # ---- R5: liveness at round start ---------------------------------------------------------------------
     chk.rule('R5', 'every round sends at least the first-ttl probe: the guard at round start holds for all 1≤first≤max≤254, 1≤inflight≤255', floor=1)
     from ..termeval import ev, Unknown, Underflow
-    enginl = Engine(prog, inline_depth=1, opaque=[r'TracerState::next_probe$', r'Strategy::<F>::do_send$', r'TracerState::round_has_capacity$'])
+    enginl = Engine(prog, inline_depth=2, opaque=[r'TracerState::next_probe$', r'Strategy::<F>::do_send$', r'TracerState::round_has_capacity$'])   # depth 2: getters inside a guard helper
     TTLT = 'trippy_core::types::TimeToLive'
     for known in (0, 1):
         st = St()
